@@ -261,13 +261,19 @@ def translate() -> tuple[str, dict]:
     if not (isinstance(vals["settings"], ast.Dict) and not vals["settings"].keys):
         raise TranslatorError("TunnelEndpoint.__init__: self.settings does not start as an empty dict")
     q = vals["send_queue"]
-    if not (isinstance(q, ast.Call) and isinstance(q.func, ast.Name) and q.func.id == "deque" and not q.args
-            and len(q.keywords) == 1 and q.keywords[0].arg == "maxlen" and isinstance(q.keywords[0].value, ast.Constant)
-            and isinstance(q.keywords[0].value.value, int) and not isinstance(q.keywords[0].value.value, bool)
-            and q.keywords[0].value.value >= 0):
-        raise TranslatorError("TunnelEndpoint.__init__: self.send_queue is not deque(maxlen=<non-negative int literal>) "
+    ep_consts = _module_consts(ep)
+    cap = None
+    if isinstance(q, ast.Call) and isinstance(q.func, ast.Name) and q.func.id == "deque" and not q.args \
+            and len(q.keywords) == 1 and q.keywords[0].arg == "maxlen":
+        mv = q.keywords[0].value
+        if isinstance(mv, ast.Name) and mv.id in ep_consts:        # deque(maxlen=SOME_MODULE_CONSTANT)
+            cap = ep_consts[mv.id]
+        elif isinstance(mv, ast.Constant):
+            cap = mv.value
+    if not isinstance(cap, int) or isinstance(cap, bool) or cap < 0:
+        raise TranslatorError("TunnelEndpoint.__init__: self.send_queue is not deque(maxlen=<non-negative int constant>) "
                               f"(found `{ast.unparse(q)}`): the queue is not bounded by a constant")
-    meta["queue_cap"] = q.keywords[0].value.value
+    meta["queue_cap"] = cap
     out += ["/-- TunnelEndpoint.__init__: `self.send_queue = deque(maxlen=N)` -/",
             f"def queueCap : Nat := {meta['queue_cap']}",
             "/-- TunnelEndpoint.__init__: `self.hops = N` -/",
